@@ -279,6 +279,9 @@ def make_style_machine(ctx):
             spec = data.draw(style_specs(fams, len(self.ex.styles)))
             if spec.get("name") in [m["name"] for m in self.ex.smodel] or spec.get("name") in getattr(self.ex, "frozen_names", set()):
                 return
+            if "bg_image" in spec:
+                # file names are unique within a history (the library refuses a second image of the same name)
+                spec["bg_image"][0] = f"img_{len(self.ex.log)}_{spec['bg_image'][0]}"
             self.step("add_style", spec=spec)
 
         @rule(data=st.data(), by_name=st.booleans())
